@@ -177,4 +177,24 @@ PROPS = {
   'explanation': 'see Properties/C19.v; two known findings (D15 double request with non-monotone source offsets, D16 float32 budget rounding) are listed in known_findings.json',
   'allowed_axioms': ['sig_not_dec', 'sig_forall_dec', 'functional_extensionality_dep', 'classic'],
  },
+ 'C14': {
+  'uses_generated': True,
+  'rule': 'archives written by the harness (1..12 entries, runs, shared contents, root-only to two leaf levels, gzip/none internals, every tile type, E7 header coordinates over the whole int32 range incl. '
+          'the boundaries and the values a truncating conversion gets wrong) through the real Edit with header JSON (all known and several unknown type/compression names, zooms -4..549, coordinates as '
+          'decimal literals with 0..12 decimals over the whole E7 range, wrong-length bounds/center), new metadata of varying length (keys out of order, HTML characters, nested values, non-objects) or both; '
+          'show --header-json fed back to edit; a metadata edit under every output-size limit 0..size+2 (RLIMIT_FSIZE in child processes) and SIGKILL at sampled instants of both edit paths. '
+          'All cases non-trivial; distinct by case line',
+  'trusted_base': [GZIP, 'Flocq binary64 (Bdiv, Bmult, binary_normalize) as the meaning of Go float64 arithmetic; the theorems about it depend on the standard-library real-number axioms through Flocq',
+                   'strconv: a decimal literal m/10^k (|m| < 2^53, k <= 22) parses to the correctly rounded quotient, and the text json.Marshal prints for a float64 parses back to the same float64',
+                   'encoding/json: metadata compared as canonical JSON; numbers beyond float64 precision are not distinguished',
+                   'file system: os.Rename is atomic, the 127-byte pwrite at offset 0 of the header-only path is atomic, a write interrupted or refused (EFBIG/ENOSPC) leaves a prefix; no fsync/power-loss reordering is modelled',
+                   'tools/gotables statement tables of Edit and headerToJson (assignments, section readers, ordered output calls with error checks) must equal the ones the model was written against'],
+  'assumptions': ['header JSON coordinates lie in the int32 E7 range and the center zoom in 0..255 (Go leaves out-of-range float-to-integer conversion implementation-defined)',
+                  'show/edit identity is claimed for headers whose tile type is 0..5 and tile compression 1..4 (names exist) and whose clustered byte is 0/1',
+                  'the output-size limit applies to the temporary file of the metadata path; limits below the size of the existing archive on the in-place header write are outside the fault model'],
+  'explanation': 'see Properties/C14.v: what edit may change (C14_header_edit, C14_metadata_edit, C14_content_preserved), show/edit identity down to the header bytes, exact storage of seven-decimal '
+                 'coordinates and the int32 round trip proved on the Flocq binary64 model (Proofs/E7.v, Proofs/E7Glue.v), the truncating conversion refuted by witness, and crash safety of both output paths '
+                 'for every crash point incl. every output-size limit.',
+  'allowed_axioms': ['sig_not_dec', 'sig_forall_dec', 'functional_extensionality_dep', 'classic'],
+ },
 }
